@@ -47,11 +47,16 @@ const (
 	c09KEquivPivot    // primary only: forged (verifiable) at heights strictly between root and top, honest at the top
 	c09KGarbagePivot  // primary only: unverifiable garbage strictly between root and top, honest at the top
 	c09KTooHighFork   // first request above the root: height too high; afterwards the equivocation fork
+	// still behind when asked for its latest block (serves the block below the first misbehaving height), caught up only
+	// when the detector comes back after its waiting period: then honest / the equivocation fork
+	c09KTooHighCatchLate
+	c09KTooHighForkLate
 	c09NKinds
 )
 
 var c09KindNames = []string{"honest", "equivocation-fork", "garbage", "no-response", "not-found", "too-high-then-catches-up",
-	"bad-block-error", "lunatic-fork", "half-signed", "too-high-stays-behind", "other-error", "forged-pivots(verifiable)", "forged-pivots(garbage)", "too-high-then-serves-fork"}
+	"bad-block-error", "lunatic-fork", "half-signed", "too-high-stays-behind", "other-error", "forged-pivots(verifiable)", "forged-pivots(garbage)", "too-high-then-serves-fork",
+	"too-high-catches-up-during-the-wait", "too-high-serves-fork-after-the-wait"}
 
 type c09CCase struct {
 	Pattern int     `json:"pattern"`
@@ -96,7 +101,7 @@ type c09Prov struct {
 	s    *c09Sched
 
 	mu          sync.Mutex
-	tooHighSeen bool
+	tooHighSeen int // answers given while still behind
 }
 
 func (p *c09Prov) ChainID() string { return c09ChainID }
@@ -112,9 +117,9 @@ func (p *c09Prov) view(h int64) *c09Desc {
 		return hon
 	}
 	switch p.kind {
-	case c09KHonest, c09KTooHighCatch:
+	case c09KHonest, c09KTooHighCatch, c09KTooHighCatchLate:
 		return hon
-	case c09KEquiv, c09KTooHighFork:
+	case c09KEquiv, c09KTooHighFork, c09KTooHighForkLate:
 		return p.w.Blocks[c09FamEquiv][h]
 	case c09KGarbage:
 		return p.w.Blocks[c09FamGarbage][h]
@@ -138,7 +143,7 @@ func (p *c09Prov) view(h int64) *c09Desc {
 
 func (p *c09Prov) pureView() bool {
 	switch p.kind {
-	case c09KHonest, c09KTooHighCatch, c09KTooHighFork, c09KEquiv, c09KGarbage, c09KLunatic, c09KWeak, c09KEquivPivot, c09KGarbagePivot:
+	case c09KHonest, c09KTooHighCatch, c09KTooHighFork, c09KTooHighCatchLate, c09KTooHighForkLate, c09KEquiv, c09KGarbage, c09KLunatic, c09KWeak, c09KEquivPivot, c09KGarbagePivot:
 		return true
 	}
 	return false
@@ -169,9 +174,13 @@ func (p *c09Prov) answer(h int64) (*c09Desc, error) {
 			return nil, provider.ErrBadLightBlock{Reason: errors.New("verif-c09: malformed")}
 		case c09KOtherError:
 			return nil, errC09Other
-		case c09KTooHighCatch, c09KTooHighFork:
-			if !p.tooHighSeen {
-				p.tooHighSeen = true
+		case c09KTooHighCatch, c09KTooHighFork, c09KTooHighCatchLate, c09KTooHighForkLate:
+			behindFor := 1
+			if p.kind == c09KTooHighCatchLate || p.kind == c09KTooHighForkLate {
+				behindFor = 2
+			}
+			if p.tooHighSeen < behindFor {
+				p.tooHighSeen++
 				if latest {
 					return p.w.Blocks[c09FamHonest][p.from-1], nil
 				}
@@ -1106,7 +1115,7 @@ func TestVerifC09Client(t *testing.T) {
 	}
 	primaries := []int{c09KHonest, c09KEquiv, c09KLunatic, c09KGarbage, c09KEquivPivot, c09KGarbagePivot, c09KNotFound, c09KTooHighBehind, c09KBadBlock}
 	witMenu3 := []int{c09KHonest, c09KEquiv, c09KGarbage, c09KNoResponse, c09KNotFound, c09KTooHighCatch, c09KBadBlock}
-	witMenu := append(append([]int{}, witMenu3...), c09KTooHighBehind, c09KTooHighFork)
+	witMenu := append(append([]int{}, witMenu3...), c09KTooHighBehind, c09KTooHighFork, c09KTooHighCatchLate, c09KTooHighForkLate)
 	if thorough {
 		witMenu = append(witMenu, c09KLunatic, c09KWeak, c09KOtherError)
 	}
